@@ -9,7 +9,7 @@ set -eu
 BUILD="$1"
 OUT="$2"
 export GOFLAGS=-mod=mod GOPROXY=off GOSUMDB=off GOTOOLCHAIN=local
-SIM=/verif/sim
+SIM=$(cd "$(dirname "$(readlink -f "$0")")/../.." && pwd)   # /verif/sim, or the sim directory of a snapshot of /verif
 W=$SIM/worlds/conc
 GEN="$BUILD/conc_gen"
 TMP="$BUILD/conc_gen.tmp.$$"
